@@ -81,6 +81,8 @@ ERROR_FAULTS = [
     ("second-link", "link", "error", ".link 2000\n.link 3000"),
     ("char-codepoint", "compile", "error", ".ascii <-1>\n.even"),
     ("too-long-char", "compile", "error", ".word 'abc'"),
+    ("unused-bad-consts", "link", "error", "ubq1_zz = no_such_q1 * 2\nubq2_zz = no_such_q2 + 10\nubq3_zz = 7 / (no_such_q3 - no_such_q3)\nubq4_zz = no_such_q4"),
+    ("unused-bad-consts2", "link", "error", "ubr1_zz = 1 / 0\nubr2_zz = no_such_r2\nubr3_zz = 1 << -1"),
 ]
 
 WARNING_FAULTS = [
@@ -260,7 +262,22 @@ def finish_cli_case(rng, prog, allow_stdin=True, want_outputs=None, force_lst=Fa
     charset = rng.choice(CHARSETS) if rng.random() < 0.4 else "bk"
     prog.charset = charset
 
+    victim = None
+    if rng.random() < 0.2:
+        # a source file whose last line is not newline-terminated; if the program has a planted
+        # warning, half of the time that warning becomes this very last line
+        victim = rng.choice(prog.files)
+        cands = [(f, s) for f in prog.files if not f.has_end for s in f.stmts
+                 if s.kind == "planted" and s.info.get("sev") == "warning"]
+        if cands and rng.random() < 0.5:
+            victim, st = rng.choice(cands)
+            victim.stmts.remove(st)
+            victim.stmts.append(st)
     files = prog.all_files()
+    if victim is not None:
+        if not victim.has_end and files.get(victim.path, b"").endswith(b"\n"):
+            files[victim.path] = files[victim.path][:-1]
+            prog.features.add("no-trailing-newline")
     dirs = {CWD, CWD + "/src", CWD + "/src/lib", SIMROOT + "/other"}
     for p in files:
         dirs.add(os.path.dirname(p))
@@ -280,7 +297,7 @@ def finish_cli_case(rng, prog, allow_stdin=True, want_outputs=None, force_lst=Fa
         if allow_stdin and simple and not stdin_used and rng.random() < 0.06:
             infiles.append("-")
             file_names[f.path] = "stdin"
-            stdin_text = f.text()
+            stdin_text = files[f.path].decode("utf-8")
             stdin_used = True
             files.pop(f.path, None)
             continue
